@@ -1,4 +1,4 @@
-P('C11', shards=16, fuzz=[('FuzzHistory', 45)],
+P('C11', shards=16, fuzz=[('FuzzHistory', 90)],
   technique='model-based stateful property testing (rapid state machine vs a set-of-prefixes reference model) + native fuzzing of byte-decoded histories',
   text='Generated Add/Remove/bulk-add/invalid-argument histories (a third of them preloaded to sit at the 256-entry list-to-map switch with removed slots) run against the real filter and a '
        'set-of-prefixes model; after every step boundary addresses (first, last, outside neighbours) of touched and sampled prefixes and random addresses are probed in 4-byte and 16-byte form, '
